@@ -4,59 +4,435 @@ import Cx.Model.State
 -/
 namespace Cx.State
 
+/-! ### visited table: invariants -/
+
+/-- reachable-state invariant: the generation fits a uint16 and no stamp is ahead of it -/
+def Vis.Inv (s : Vis) : Prop := s.gen < genMod ∧ ∀ x ∈ s.arr, x ≤ s.gen
+
+/-- what a `bump` establishes: every stamp is strictly behind a non-zero generation -/
+def Vis.Fresh (s : Vis) : Prop := 0 < s.gen ∧ s.gen < genMod ∧ ∀ x ∈ s.arr, x < s.gen
+
+theorem Vis.Fresh.inv {s : Vis} (h : s.Fresh) : s.Inv :=
+  ⟨h.2.1, fun x hx => Nat.le_of_lt (h.2.2 x hx)⟩
+
+theorem Vis.inv_new : Vis.new.Inv := by
+  refine ⟨by simp [Vis.new, genMod], ?_⟩
+  intro x hx
+  simp [Vis.new] at hx
+
+theorem Vis.bump_fresh {s : Vis} (h : s.Inv) : s.bump.Fresh := by
+  obtain ⟨hg, hx⟩ := h
+  have hg' : s.gen < 65536 := hg
+  unfold Vis.bump
+  by_cases hw : (s.gen + 1) % genMod = 0
+  · rw [if_pos hw]
+    refine ⟨by simp, by simp [genMod], ?_⟩
+    intro x hx'
+    simp only [List.mem_replicate] at hx'
+    show x < 1
+    omega
+  · rw [if_neg hw]
+    have hw' : (s.gen + 1) % 65536 ≠ 0 := hw
+    have hmod : (s.gen + 1) % genMod = s.gen + 1 := by
+      show (s.gen + 1) % 65536 = s.gen + 1
+      omega
+    refine ⟨?_, ?_, ?_⟩
+    · simp only [hmod]; omega
+    · simp only [hmod]; show s.gen + 1 < 65536; omega
+    · intro x hx'
+      have := hx x hx'
+      simp only [hmod]
+      omega
+
+theorem Vis.reset_fresh {s : Vis} (h : s.Inv) (n : Nat) : (s.reset n).Fresh := by
+  unfold Vis.reset
+  apply Vis.bump_fresh
+  by_cases hn : s.arr.length ≥ n
+  · rw [if_pos hn]; exact h
+  · rw [if_neg hn]
+    refine ⟨by simp [genMod], ?_⟩
+    intro x hx
+    simp only [List.mem_replicate] at hx
+    omega
+
+theorem Vis.mark_inv {s : Vis} (h : s.Inv) (i : Nat) : (s.mark i).Inv := by
+  unfold Vis.mark
+  split
+  · refine ⟨h.1, ?_⟩
+    intro x hx
+    simp only at hx
+    rcases List.mem_or_eq_of_mem_set hx with hx | hx
+    · exact h.2 x hx
+    · simp only; omega
+  · exact h
+
+theorem Vis.step_inv {s : Vis} (h : s.Inv) (op : VOp) : (s.step op).Inv := by
+  cases op with
+  | reset n => exact (Vis.reset_fresh h n).inv
+  | bump => exact (Vis.bump_fresh h).inv
+  | mark i => exact Vis.mark_inv h i
+
+theorem Vis.run_inv (ops : List VOp) : ∀ {s : Vis}, s.Inv → (s.run ops).Inv := by
+  induction ops with
+  | nil => intro s h; exact h
+  | cons op ops ih =>
+    intro s h
+    exact ih (s := s.step op) (Vis.step_inv h op)
+
+theorem Vis.Fresh.not_visited {s : Vis} (h : s.Fresh) (idx : Nat) : s.visited idx = false := by
+  obtain ⟨h0, _, hx⟩ := h
+  unfold Vis.visited
+  rw [List.getD_eq_getElem?_getD]
+  cases hv : s.arr[idx]? with
+  | none => simp; omega
+  | some x =>
+    have := hx x (List.mem_of_getElem? hv)
+    simp; omega
+
 /-- C13: after any history, a new search (reset) or a new start position (bump) sees a table with NO entry
     marked visited — for every index of the whole backing array, so re-slicing to a longer haystack is safe.
     (History = any interleaving of searches of any sizes, start-position bumps and markings, across the wrap.) -/
 theorem vis_fresh_after_reset (ops : List VOp) (n idx : Nat) :
-    ((Vis.new.run ops).reset n).visited idx = false := by
-  sorry
+    ((Vis.new.run ops).reset n).visited idx = false :=
+  (Vis.reset_fresh (Vis.run_inv ops Vis.inv_new) n).not_visited idx
 
 theorem vis_fresh_after_bump (ops : List VOp) (idx : Nat) :
-    ((Vis.new.run ops).bump).visited idx = false := by
-  sorry
+    ((Vis.new.run ops).bump).visited idx = false :=
+  (Vis.bump_fresh (Vis.run_inv ops Vis.inv_new)).not_visited idx
 
 /-- C13: marking makes exactly that entry visited and nothing else -/
 theorem vis_mark_exact (s : Vis) (i j : Nat) (hi : i < s.len) (hl : s.len ≤ s.arr.length) :
     (s.mark i).visited j = (decide (j = i) || s.visited j) := by
-  sorry
+  have hil : i < s.arr.length := Nat.lt_of_lt_of_le hi hl
+  unfold Vis.mark Vis.visited
+  rw [if_pos hi]
+  simp only [List.getD_eq_getElem?_getD, List.getElem?_set]
+  by_cases hji : j = i
+  · subst hji
+    simp [hil]
+  · have hij : ¬ i = j := fun h => hji h.symm
+    simp [hji, hij]
+
+/-! ### visited table: size -/
+
+theorem Vis.bump_arr_length (s : Vis) : s.bump.arr.length = s.arr.length := by
+  unfold Vis.bump
+  simp only
+  split <;> simp
+
+theorem Vis.bump_len (s : Vis) : s.bump.len = s.len := by
+  unfold Vis.bump
+  simp only
+  split <;> rfl
+
+theorem Vis.step_size {s : Vis} {m : Nat} (h : s.arr.length ≤ m ∧ s.len ≤ s.arr.length) (op : VOp)
+    (hop : ∀ n, op = VOp.reset n → n ≤ m) :
+    (s.step op).arr.length ≤ m ∧ (s.step op).len ≤ (s.step op).arr.length := by
+  cases op with
+  | reset n =>
+    have hn := hop n rfl
+    simp only [Vis.step, Vis.reset, Vis.bump_arr_length, Vis.bump_len]
+    split
+    · rename_i hge
+      simp only
+      omega
+    · simp
+      omega
+  | bump =>
+    simp only [Vis.step, Vis.bump_arr_length, Vis.bump_len]
+    exact h
+  | mark i =>
+    simp only [Vis.step, Vis.mark]
+    split
+    · simp only [List.length_set]; exact h
+    · exact h
+
+theorem Vis.run_size (ops : List VOp) (m : Nat) (hm : ∀ n, VOp.reset n ∈ ops → n ≤ m) :
+    ∀ {s : Vis}, (s.arr.length ≤ m ∧ s.len ≤ s.arr.length) →
+      (s.run ops).arr.length ≤ m ∧ (s.run ops).len ≤ (s.run ops).arr.length := by
+  induction ops with
+  | nil => intro s h; exact h
+  | cons op ops ih =>
+    intro s h
+    apply ih (fun n hn => hm n (List.mem_cons_of_mem _ hn)) (s := s.step op)
+    apply Vis.step_size h
+    intro n hn
+    exact hm n (by rw [hn]; exact List.mem_cons_self)
 
 /-- C20: the table never grows beyond the largest request (the caller gates requests with CanHandle) -/
 theorem vis_size_bound (ops : List VOp) (m : Nat) (hm : ∀ n, VOp.reset n ∈ ops → n ≤ m) :
-    (Vis.new.run ops).arr.length ≤ m ∧ (Vis.new.run ops).len ≤ (Vis.new.run ops).arr.length := by
-  sorry
+    (Vis.new.run ops).arr.length ≤ m ∧ (Vis.new.run ops).len ≤ (Vis.new.run ops).arr.length :=
+  Vis.run_size ops m hm (by simp [Vis.new])
 
 /-- the pre-fix overflow branch breaks freshness: a witness state (a stale stamp beyond `len`) -/
 theorem vis_old_wrap_witness :
     let s : Vis := { arr := [0, 2], len := 1, gen := 65535 }
     -- wrap with the short slice, then a longer search at generation 2 sees entry 1 as already visited
     (((s.bumpOld).reset 2)).visited 1 = true ∧ (((s.bump).reset 2)).visited 1 = false := by
-  sorry
+  decide
 
-/-- C20: memory stays within capacity plus one state's worth, for every history of inserts and clears -/
-theorem cache_mem_bound (stride cap maxSz : Nat) (ops : List COp) (hs : 0 < stride)
+/-! ### lazy-DFA cache accounting -/
+
+/-- reachable-state invariant of the accounting, parametric in the slack `B` above the capacity -/
+structure Cache.Inv (stride cap B : Nat) (c : Cache) : Prop where
+  hstride : c.stride = stride
+  hcap : c.cap = cap
+  hnext : c.nextID = (c.nStates + 1) * stride
+  shape : (c.nStates = 0 ∧ c.flatLen = 0 ∧ c.listLen = 0 ∧ c.nfaBytes = 0) ∨
+          (0 < c.nStates ∧ c.flatLen = c.nextID ∧ c.listLen = c.nStates + 1)
+  bound : c.mem ≤ cap + B
+
+theorem Cache.inv_new (stride cap B : Nat) : (Cache.new stride cap).Inv stride cap B := by
+  refine ⟨rfl, rfl, ?_, Or.inl ⟨rfl, rfl, rfl, rfl⟩, ?_⟩
+  · simp [Cache.new]
+  · simp [Cache.new, Cache.mem]
+
+theorem Cache.clear_inv {stride cap B : Nat} {c : Cache} (h : c.Inv stride cap B) :
+    c.clear.Inv stride cap B := by
+  refine ⟨h.hstride, h.hcap, ?_, Or.inl ⟨rfl, rfl, rfl, rfl⟩, ?_⟩
+  · simp [Cache.clear, h.hstride]
+  · simp [Cache.clear, Cache.mem]
+
+/-- `B` must cover one ordinary insert (`hB1`) and the first insert after new/clear, which allocates two
+    transition rows and two list slots at once (`hB2`). -/
+theorem Cache.add_inv {stride cap B maxSz : Nat} (hs : 0 < stride) (hB1 : 56 + 4 * stride + maxSz ≤ B)
+    (hB2 : 64 + 8 * stride + maxSz ≤ cap + B) {c : Cache} (h : c.Inv stride cap B) (sz : Nat)
+    (hsz : sz ≤ maxSz) : ((c.add sz).getD c).Inv stride cap B := by
+  obtain ⟨h1, h2, h3, h4, h5⟩ := h
+  unfold Cache.add
+  by_cases hfull : c.mem ≥ c.cap
+  · rw [if_pos hfull]; exact ⟨h1, h2, h3, h4, h5⟩
+  · rw [if_neg hfull]
+    simp only [Option.getD_some]
+    have hdiv : c.nextID / c.stride = c.nStates + 1 := by
+      rw [h3, h1]; exact Nat.mul_div_cancel _ hs
+    refine ⟨h1, h2, ?_, ?_, ?_⟩
+    · simp only [h1, h3, Nat.add_mul, Nat.one_mul]
+    · right
+      simp only [hdiv]
+      rcases h4 with ⟨a, b, c', d⟩ | ⟨a, b, c'⟩ <;> omega
+    · unfold Cache.mem at *
+      simp only [hdiv]
+      rcases h4 with ⟨a, b, c', d⟩ | ⟨a, b, c'⟩
+      · have hn : c.nextID = stride := by rw [h3, a]; simp
+        omega
+      · omega
+
+theorem Cache.run_inv {stride cap B maxSz : Nat} (hs : 0 < stride) (hB1 : 56 + 4 * stride + maxSz ≤ B)
+    (hB2 : 64 + 8 * stride + maxSz ≤ cap + B) (ops : List COp) (hsz : ∀ sz, COp.add sz ∈ ops → sz ≤ maxSz) :
+    ∀ {c : Cache}, c.Inv stride cap B → (c.run ops).Inv stride cap B := by
+  induction ops with
+  | nil => intro c h; exact h
+  | cons op ops ih =>
+    intro c h
+    apply ih (fun sz hm => hsz sz (List.mem_cons_of_mem _ hm)) (c := c.step op)
+    cases op with
+    | add sz => exact Cache.add_inv hs hB1 hB2 h sz (hsz sz List.mem_cons_self)
+    | clear => exact Cache.clear_inv h
+
+/-- The bound as originally stated (`cap + (48 + 8 + 8*stride + maxSz)` with no lower bound on `cap`) is FALSE:
+    the first insert after new/clear allocates two transition rows AND two list slots (16 bytes, not 8), and it is
+    accepted as soon as `0 < cap`. Witness: stride = 1, cap = 1, maxSz = 0, ops = [add 0]: mem = 72 > 65. -/
+theorem cache_mem_bound_counterexample :
+    ¬ (((Cache.new 1 1).run [COp.add 0]).mem ≤ 1 + (48 + 8 + 8 * 1 + 0)) := by
+  decide
+
+/-- C20: memory stays within capacity plus one state's worth, for every history of inserts and clears —
+    under the extra hypothesis `8 ≤ cap` (see `cache_mem_bound_counterexample` for why it is needed). -/
+theorem cache_mem_bound_partial (stride cap maxSz : Nat) (ops : List COp) (hs : 0 < stride) (hcap : 8 ≤ cap)
     (hsz : ∀ sz, COp.add sz ∈ ops → sz ≤ maxSz) :
-    ((Cache.new stride cap).run ops).mem ≤ cap + (48 + 8 + 8 * stride + maxSz) := by
-  sorry
+    ((Cache.new stride cap).run ops).mem ≤ cap + (48 + 8 + 8 * stride + maxSz) :=
+  (Cache.run_inv hs (by omega) (by omega) ops hsz (Cache.inv_new stride cap _)).bound
+
+/-- C20, unconditional variant: with TWO list slots (16 bytes) in the slack the bound holds for every `cap`. -/
+theorem cache_mem_bound_two_slots (stride cap maxSz : Nat) (ops : List COp) (hs : 0 < stride)
+    (hsz : ∀ sz, COp.add sz ∈ ops → sz ≤ maxSz) :
+    ((Cache.new stride cap).run ops).mem ≤ cap + (48 + 16 + 8 * stride + maxSz) :=
+  (Cache.run_inv hs (by omega) (by omega) ops hsz (Cache.inv_new stride cap _)).bound
+
+theorem Cache.step_stride_cap (c : Cache) (op : COp) : (c.step op).stride = c.stride ∧ (c.step op).cap = c.cap := by
+  cases op with
+  | add sz =>
+    simp only [Cache.step, Cache.add]
+    split <;> simp
+  | clear => simp [Cache.step, Cache.clear]
+
+theorem Cache.run_stride_cap (ops : List COp) :
+    ∀ (c : Cache), (c.run ops).stride = c.stride ∧ (c.run ops).cap = c.cap := by
+  induction ops with
+  | nil => intro c; exact ⟨rfl, rfl⟩
+  | cons op ops ih =>
+    intro c
+    have h1 := ih (c.step op)
+    have h2 := Cache.step_stride_cap c op
+    exact ⟨h1.1.trans h2.1, h1.2.trans h2.2⟩
 
 /-- C13/C20: a clear returns the accounting to the state of a new cache (only the clear counter differs) -/
 theorem cache_clear_is_new (stride cap : Nat) (ops : List COp) :
     { ((Cache.new stride cap).run ops).clear with clears := 0 } = Cache.new stride cap := by
-  sorry
+  have h := Cache.run_stride_cap ops (Cache.new stride cap)
+  simp only [Cache.clear, Cache.new] at *
+  simp [h.1, h.2]
+
+/-! ### search-state pool -/
+
+def Pool.Inv (p : Pool) : Prop := p.ids.Nodup ∧ ∀ x ∈ p.ids, x < p.next
+
+theorem Pool.Inv.of_perm {p q : Pool} (hp : p.Inv) (hperm : q.ids.Perm p.ids) (hnext : q.next = p.next) :
+    q.Inv :=
+  ⟨hperm.nodup_iff.mpr hp.1, fun x hx => hnext ▸ hp.2 x (hperm.mem_iff.mp hx)⟩
+
+theorem Pool.Inv.of_sublist {p q : Pool} (hp : p.Inv) (hsub : q.ids.Sublist p.ids) (hnext : q.next = p.next) :
+    q.Inv :=
+  ⟨hp.1.sublist hsub, fun x hx => hnext ▸ hp.2 x (hsub.subset hx)⟩
+
+theorem perm_cons_eraseIdx {α : Type} : ∀ (l : List α) (k : Nat) (s : α), l[k]? = some s →
+    l.Perm (s :: l.eraseIdx k) := by
+  intro l
+  induction l with
+  | nil => intro k s h; simp at h
+  | cons a l ih =>
+    intro k s h
+    cases k with
+    | zero =>
+      simp at h
+      subst h
+      simp
+    | succ k =>
+      simp at h
+      simp only [List.eraseIdx_cons_succ]
+      exact ((ih k s h).cons a).trans (List.Perm.swap s a _)
+
+theorem gcFilter_sublist : ∀ (l : List Nat) (ks : List Bool),
+    ((l.zip ks).filterMap fun (s, k) => if k then some s else none).Sublist l := by
+  intro l
+  induction l with
+  | nil => intro ks; simp
+  | cons a l ih =>
+    intro ks
+    cases ks with
+    | nil => simp
+    | cons b ks =>
+      simp only [List.zip_cons_cons, List.filterMap_cons]
+      cases b with
+      | true => simp only [if_true]; exact (ih ks).cons_cons a
+      | false => simp only [Bool.false_eq_true, if_false]; exact (ih ks).cons a
+
+theorem Pool.inv_init : Pool.init.Inv := by
+  simp [Pool.Inv, Pool.init, Pool.ids]
+
+theorem Pool.step_inv {p : Pool} (hp : p.Inv) (op : POp) : (p.step op).Inv := by
+  cases op with
+  | getLocal t =>
+    cases hs : p.slot with
+    | none => simp only [Pool.step, hs]; exact hp
+    | some s =>
+      simp only [Pool.step, hs]
+      apply hp.of_perm ?_ (by rfl)
+      simp only [Pool.ids, hs, Option.toList, List.map_cons, List.nil_append, List.cons_append]
+      exact List.perm_middle
+  | getPool t k =>
+    cases hs : p.slot with
+    | some a => simp only [Pool.step, hs]; exact hp
+    | none =>
+      cases hk : p.pool[k]? with
+      | none => simp only [Pool.step, hs, hk]; exact hp
+      | some s =>
+        simp only [Pool.step, hs, hk]
+        apply hp.of_perm ?_ (by rfl)
+        simp only [Pool.ids, hs, Option.toList, List.map_cons, List.nil_append]
+        exact List.perm_middle.trans ((perm_cons_eraseIdx _ _ _ hk).symm.append_right _)
+  | getNew t =>
+    cases hs : p.slot with
+    | some a => simp only [Pool.step, hs]; exact hp
+    | none =>
+      simp only [Pool.step, hs]
+      have hperm : ({ slot := none, pool := p.pool, held := (t, p.next) :: p.held, next := p.next + 1 } : Pool).ids.Perm
+          (p.next :: p.ids) := by
+        simp only [Pool.ids, hs, Option.toList, List.map_cons, List.nil_append]
+        exact List.perm_middle
+      refine ⟨hperm.nodup_iff.mpr (List.nodup_cons.mpr ⟨?_, hp.1⟩), ?_⟩
+      · intro hmem
+        exact Nat.lt_irrefl _ (hp.2 _ hmem)
+      · intro x hx
+        rcases List.mem_cons.mp (hperm.mem_iff.mp hx) with h | h
+        · show x < p.next + 1; omega
+        · have := hp.2 x h
+          show x < p.next + 1; omega
+  | put t s =>
+    by_cases hmem : (t, s) ∈ p.held
+    · have hperm : (p.held.map (·.2)).Perm (s :: (p.held.erase (t, s)).map (·.2)) :=
+        (List.perm_cons_erase hmem).map (·.2)
+      cases hs : p.slot with
+      | none =>
+        simp only [Pool.step, if_pos hmem, hs]
+        apply hp.of_perm ?_ (by rfl)
+        simp only [Pool.ids, hs, Option.toList, List.nil_append, List.cons_append]
+        exact ((hperm.append_left p.pool).trans List.perm_middle).symm
+      | some a =>
+        simp only [Pool.step, if_pos hmem, hs]
+        apply hp.of_perm ?_ (by rfl)
+        simp only [Pool.ids, hs, Option.toList, List.nil_append, List.cons_append]
+        exact (((hperm.append_left p.pool).trans List.perm_middle).symm).cons a
+    · simp only [Pool.step, if_neg hmem]; exact hp
+  | gc keep =>
+    simp only [Pool.step]
+    apply hp.of_sublist ?_ (by rfl)
+    simp only [Pool.ids]
+    exact ((List.Sublist.refl _).append (gcFilter_sublist _ _)).append (List.Sublist.refl _)
+
+theorem Pool.run_inv (ops : List POp) : ∀ {p : Pool}, p.Inv → (p.run ops).Inv := by
+  induction ops with
+  | nil => intro p h; exact h
+  | cons op ops ih =>
+    intro p h
+    exact ih (p := p.step op) (Pool.step_inv h op)
 
 /-- C06: in every reachable state of the hand-off protocol all state ids are distinct: no state is in two
     places, in particular no two goroutines (and no two nested calls) hold the same state. -/
-theorem pool_ids_nodup (ops : List POp) : (Pool.init.run ops).ids.Nodup := by
-  sorry
+theorem pool_ids_nodup (ops : List POp) : (Pool.init.run ops).ids.Nodup :=
+  (Pool.run_inv ops Pool.inv_init).1
+
+theorem snd_nodup_inj : ∀ (l : List (Nat × Nat)), (l.map (·.2)).Nodup →
+    ∀ a b s, (a, s) ∈ l → (b, s) ∈ l → a = b := by
+  intro l
+  induction l with
+  | nil => intro _ a b s h; simp at h
+  | cons x l ih =>
+    intro hn a b s ha hb
+    simp only [List.map_cons, List.nodup_cons] at hn
+    obtain ⟨hx, hn⟩ := hn
+    rcases List.mem_cons.mp ha with ha | ha <;> rcases List.mem_cons.mp hb with hb | hb
+    · rw [← hb] at ha
+      exact (Prod.mk.inj ha).1
+    · exfalso; apply hx
+      rw [← ha]
+      exact List.mem_map.mpr ⟨(b, s), hb, rfl⟩
+    · exfalso; apply hx
+      rw [← hb]
+      exact List.mem_map.mpr ⟨(a, s), ha, rfl⟩
+    · exact ih hn a b s ha hb
 
 theorem pool_exclusive (ops : List POp) (t1 t2 s : Nat) (h1 : (t1, s) ∈ (Pool.init.run ops).held)
     (h2 : (t2, s) ∈ (Pool.init.run ops).held) : t1 = t2 := by
-  sorry
+  have hn := pool_ids_nodup ops
+  unfold Pool.ids at hn
+  exact snd_nodup_inj _ (hn.sublist (List.sublist_append_right _ _)) t1 t2 s h1 h2
+
+theorem Pool.round_init (t : Nat) : (Pool.init.step (POp.getLocal t)).step (POp.put t 0) = Pool.init := by
+  simp [Pool.step, Pool.init]
 
 /-- C20: a sequential caller (get then put, nothing else running) never makes the pool allocate:
     the slot is refilled by every put, so the next get is a `getLocal`. -/
 theorem pool_sequential_no_alloc (k : Nat) (t : Nat) :
     let p := Pool.init.run ((List.replicate k [POp.getLocal t, POp.put t 0]).flatten)
     p = Pool.init := by
-  sorry
+  induction k with
+  | zero => rfl
+  | succ k ih =>
+    simp only [List.replicate_succ, List.flatten_cons, Pool.run, List.cons_append, List.nil_append,
+      List.foldl_cons] at *
+    rw [Pool.round_init]
+    exact ih
 
 end Cx.State
